@@ -78,7 +78,33 @@ ClausesMut(e) ==
       \cup (IF e.eq_xy # e.eq_yx THEN {"C12.Symmetric"} ELSE {})
       \cup (IF (e.eq_xy \in 0..1 /\ e.ne_xy # 1 - e.eq_xy) THEN {"C12.NeConsistent"} ELSE {})
 
-Verdicts(e) == IF e.op = "mut" THEN (IF ShapeMut(e) # "" THEN {ShapeMut(e)} ELSE ClausesMut(e))
+(* ---- states no constructor produces (op = "raw"): the contract of the object itself ---- *)
+(*   [cls, x, mut, warm, mut_res,  refl (x == x), refl_ne (x != x),                                            *)
+(*    copy_xy, copy_yx (deepcopy), z (1 = a fresh object could be built from the current attribute values),    *)
+(*    eq_xz, eq_zx, eq_xo, eq_ox (o = fresh object with the OLD values), hash_x, hash_c, hash_z, hash_old,      *)
+(*    heq_c, heq_z, heq_o (hashes equal, 0 / 1), sig "<Class>.<mutator>[@cold]"]                                *)
+ShapeRaw(e) ==
+  IF e.cls \notin Classes THEN "machinery/unknown-class"
+  ELSE IF ~IsValuation(e.cls, e.x) THEN "machinery/bad-valuation"
+  ELSE IF ~IsRaw(e.cls, e.mut, e.x) THEN "machinery/not-a-mutation"
+  ELSE IF e.mut_res # "ok" THEN "driver/mutator-raised"
+  ELSE IF {e.refl, e.refl_ne, e.copy_xy, e.copy_yx, e.eq_xz, e.eq_zx, e.eq_xo, e.eq_ox} \subseteq 0..2
+          /\ {e.z, e.warm, e.heq_c, e.heq_z, e.heq_o} \subseteq 0..1 THEN ""
+  ELSE "machinery/bad-field"
+ClausesRaw(e) ==
+  LET ok(h) == h = "ok" IN
+      (IF e.refl # 1 THEN {"C12.Reflexive"} ELSE {})
+      \cup (IF e.refl \in 0..1 /\ e.refl_ne # 1 - e.refl THEN {"C12.NeConsistent"} ELSE {})
+      \cup (IF e.copy_xy # 1 \/ e.copy_yx # 1 THEN {"C12.CopyEqual"} ELSE {})
+      \cup (IF e.copy_xy # e.copy_yx \/ (e.z = 1 /\ e.eq_xz # e.eq_zx) \/ e.eq_xo # e.eq_ox THEN {"C12.Symmetric"} ELSE {})
+      \cup (IF \/ (e.copy_xy = 1 /\ e.copy_yx = 1 /\ ok(e.hash_x) /\ ok(e.hash_c) /\ e.heq_c # 1)
+               \/ (e.z = 1 /\ e.eq_xz = 1 /\ e.eq_zx = 1 /\ ok(e.hash_x) /\ ok(e.hash_z) /\ e.heq_z # 1)
+               \/ (e.eq_xo = 1 /\ e.eq_ox = 1 /\ ok(e.hash_x) /\ ok(e.hash_old) /\ e.heq_o # 1)
+            THEN {"C12.HashConsistent"} ELSE {})
+      \cup (IF ok(e.hash_old) /\ ~ok(e.hash_x) THEN {"C12.HashTotal"} ELSE {})
+
+Verdicts(e) == IF e.op = "raw" THEN (IF ShapeRaw(e) # "" THEN {ShapeRaw(e)} ELSE ClausesRaw(e))
+               ELSE IF e.op = "mut" THEN (IF ShapeMut(e) # "" THEN {ShapeMut(e)} ELSE ClausesMut(e))
                ELSE IF Shape(e) # "" THEN {Shape(e)} ELSE Clauses(e)
 
 TInit == tid \in 1..Len(Traces) /\ l = 1 /\ err = 0
